@@ -770,3 +770,90 @@ def digest_intact(ck, prog, config, clause, funcs, exception_field='comp_length'
               r.violations[0].node.line if r.violations else vf.line,
               path=r.violations[0].path if r.violations else None, config=config)
     return n
+
+
+# ------------------------------------------------------------------ what the scan reads of a chunk reaches the chunk hash
+def read_reaches_hash(ck, prog, config, clause, fname='validate_checksums', reader='read_data', hasher='hash_update',
+                      hash_field='check_chunk_hash', verdict='validate_chunk'):
+    """R6.read-hashed: in the validity scan, every count of bytes read from a chunk's extent that can be positive is
+    handed, with the same buffer, to the chunk hash before the next read of the same buffer and before the chunk's
+    verdict.  A path on which bytes were read but not hashed (a fast path that classifies a chunk by looking at the
+    bytes instead, a skipped block) makes the verdict a function of something other than the stored bytes."""
+    fn = prog.need_func(fname)
+
+    class RH(FactRule):
+        name = 'R6.read-hashed'
+
+        def __init__(s, prog_, f):
+            FactRule.__init__(s, prog_, f)
+            s.reads = 0
+            s.hashes = 0
+            s.verdicts = 0
+
+        def pending(s, ts):
+            return [x for x in ts if isinstance(x, tuple) and x[0] == 'rd']
+
+        def flush(s, c2, ts, what):
+            for x in s.pending(ts):
+                s.violate(c2, 'unhashed', 'the bytes read into %s (count %s, read at line %d) can be more than none on this '
+                          'path and have not been given to the chunk hash when %s: the chunk is classified without its '
+                          'stored bytes having been hashed' % (x[3], x[2], x[4], what), inst='read@%s' % x[2])
+            return frozenset(x for x in ts if not (isinstance(x, tuple) and x[0] == 'rd'))
+
+        def on_assign(s, c2, lhs, rhs, op, value, ts):
+            if c2.fn is not s.fn:
+                return ts
+            l = strip(lhs)
+            r = strip(rhs) if rhs is not None else None
+            while r is not None and r.k == 'cast' and r.a:
+                r = strip(r.a[0])
+            if l is not None and l.k == 'var' and op == '=' and r is not None and r.k == 'call' and \
+                    callee_name(r) == reader and len(r.a) > 3:
+                ts = s.flush(c2, ts, 'the buffer is read into again')
+                s.reads += 1
+                ts = ts | frozenset([('rd', l.decl, l.op, pstr(r.a[2]), r.line)])
+            return ts
+
+        def on_edge(s, c2, node, label, refined, ts):
+            if c2.fn is not s.fn:
+                return ts
+            op, l, r = atom_cmp(node.e, label)
+            sl = strip(l)
+            while sl is not None and sl.k == 'cast' and sl.a:
+                sl = strip(sl.a[0])
+            cv = const_value(r)
+            if sl is not None and sl.k == 'var' and cv is not None:
+                nothing = (op == '<=' and cv <= 0) or (op == '<' and cv <= 1) or (op == '==' and cv <= 0)
+                if nothing:
+                    ts = frozenset(x for x in ts if not (isinstance(x, tuple) and x[0] == 'rd' and x[1] == sl.decl))
+            return ts
+
+        def on_call(s, c2, call, ts):
+            if c2.fn is not s.fn:
+                return ts
+            nm = callee_name(call)
+            if nm == hasher and len(call.a) > 4 and hash_field in pstr(call.a[2]):
+                s.hashes += 1
+                ln = strip(call.a[4])
+                while ln is not None and ln.k == 'cast' and ln.a:
+                    ln = strip(ln.a[0])
+                buf = pstr(call.a[3])
+                ts = frozenset(x for x in ts if not (isinstance(x, tuple) and x[0] == 'rd' and ln is not None and
+                                                     ln.k == 'var' and ln.decl == x[1] and buf == x[3]))
+            elif nm == verdict:
+                s.verdicts += 1
+                ts = s.flush(c2, ts, '%s() gives the verdict' % verdict)
+            return ts
+
+        def on_return(s, c2, node, mask, ts):
+            return ts
+    r = RH(prog, fn)
+    run_rule(prog, fn, r)
+    ck.require(r.reads >= 1 and r.hashes >= 1 and r.verdicts >= 1,
+               '%s: read (%d) / chunk-hash update (%d) / verdict (%d) not found' % (fname, r.reads, r.hashes, r.verdicts))
+    ck.ob(clause, 'R6.read-hashed', fname, 'read->hash->verdict', not r.violations,
+          'every count read from a chunk that can be positive is hashed (same buffer) before the next read and before %s() '
+          '(%d read, %d hash, %d verdict state(s))' % (verdict, r.reads, r.hashes, r.verdicts) if not r.violations else
+          r.violations[0].msg, fn.file, r.violations[0].node.line if r.violations else fn.line,
+          path=r.violations[0].path if r.violations else None, config=config)
+    return r.reads
